@@ -154,7 +154,9 @@ def level2_library(name, lang, cfi, debug=False):
           F("sio", "void", [n_(), P("s", "cstr_inout")]),
           F("sgrow", "void", [n_(), P("cap", "val", "int", role="cap"), P("s", "cstr_inout")]),
           F("sres", "cstr", [n_()]),
-          F("sresl", {"kind": "cstr_len", "N": 8}, [n_()])]
+          F("sresl", {"kind": "cstr_len", "N": 8}, [n_()]),
+          # the declared length written as an expression (statement.yaml: +len(...) takes any Fortran expression)
+          F("sreslx", {"kind": "cstr_len", "N": 6, "lenexpr": "2*3"}, [n_()])]
     # the same through fortran_generic variants (one more hop between the Fortran wrapper and the buffer-aware C wrapper)
     gen_ = [{"decl": "(float x)", "function_suffix": "_float", "types": {"x": "float"}},
             {"decl": "(double x)", "function_suffix": "_double", "types": {"x": "double"}}]
@@ -178,7 +180,8 @@ def level2_library(name, lang, cfi, debug=False):
                F("xo", "void", [n_(), P("s", "str_ref_out")]), F("xio", "void", [n_(), P("s", "str_ref_inout")]),
                F("xpo", "void", [n_(), P("s", "str_ptr_out")]), F("xpio", "void", [n_(), P("s", "str_ptr_inout")]),
                F("xres", "str_cref", [n_()]), F("xval", "str_val", [n_()]),
-               F("xresl", {"kind": "str_cref_len", "N": 8}, [n_()]), F("xown", {"kind": "str_ptr_own"}, [n_()])]
+               F("xresl", {"kind": "str_cref_len", "N": 8}, [n_()]), F("xown", {"kind": "str_ptr_own"}, [n_()]),
+               F("xreslx", {"kind": "str_cref_len", "N": 9, "lenexpr": "3+6"}, [n_()])]
     for f in fs:
         f["shape"] = "c10"
         f.setdefault("fid", f["name"])
